@@ -21,7 +21,7 @@ from simfile.dir import DuplicateSimfileError, SimfileDirectory, SimfilePack  # 
 
 LEVEL = "model_checking"
 
-NAMES = ["a.sm", "b.SM", "c.Ssc", "d.ssc", ".sm", "x.sm.old", "y.ssca", "sm", "bn.png", "song.ogg"]
+NAMES = ["a.sm", "b.SM", "c.Ssc", "d.ssc", ".sm", "x.sm.old", "y.ssca", "sm", "bn.png", "song.ogg", "e.ßc", "f.ſm"]
 JP = "日本語タイトル"
 
 
@@ -55,7 +55,7 @@ def child_tree(kind):
     if kind == "empty":
         return {}
     if kind == "nearmiss":
-        return {"x.sm.old": b"x", "y.ssca": b"x", "sm": b"x"}
+        return {"x.sm.old": b"x", "y.ssca": b"x", "sm": b"x", "e.ßc": b"x", "f.ſm": b"x"}
     if kind == "nested":
         return {"inner": {"a.sm": content_for("a.sm")}, "readme.txt": b"x"}
     if kind == "jp":
@@ -271,6 +271,9 @@ def check_pack(world, children, order, ignore_dup, strict, slash, paths, encodin
         if sp.name != "Pack":
             fails.append({"clause": "pack name is not the directory name", "expected": "Pack", "observed": sp.name, **tag})
         got_open = drain(sp.simfiles(**kw), title_of)
+        again = drain(sp.simfiles(**kw), title_of)
+        if again != got_open:
+            fails.append({"clause": "iterating the same pack object a second time gives a different answer", "expected": got_open, "observed": again, **tag})
         if not same_opened(got_open, opened):
             fails.append({"clause": "SimfilePack.simfiles does not open each directory's simfile with the caller's loader options", "expected": opened, "observed": got_open, "options": kw, **tag})
         # simfile_dirs agree with SimfileDirectory on each path
